@@ -38,3 +38,64 @@ pub fn guarded<T>(f: impl FnOnce() -> T + std::panic::UnwindSafe) -> Result<T, S
 pub fn quiet_panics() {
     std::panic::set_hook(Box::new(|_| {}));
 }
+
+
+// ---------------------------------------------------------------------------------
+// counting allocator: the largest single request since the last reset
+use std::alloc::{GlobalAlloc, Layout, System};
+use std::sync::atomic::{AtomicU64, AtomicUsize, Ordering};
+
+pub struct Counting;
+pub static MAX_REQ: AtomicUsize = AtomicUsize::new(0);
+
+unsafe impl GlobalAlloc for Counting {
+    unsafe fn alloc(&self, l: Layout) -> *mut u8 {
+        MAX_REQ.fetch_max(l.size(), Ordering::Relaxed);
+        System.alloc(l)
+    }
+    unsafe fn dealloc(&self, p: *mut u8, l: Layout) {
+        System.dealloc(p, l)
+    }
+    unsafe fn realloc(&self, p: *mut u8, l: Layout, new_size: usize) -> *mut u8 {
+        MAX_REQ.fetch_max(new_size, Ordering::Relaxed);
+        System.realloc(p, l, new_size)
+    }
+    unsafe fn alloc_zeroed(&self, l: Layout) -> *mut u8 {
+        MAX_REQ.fetch_max(l.size(), Ordering::Relaxed);
+        System.alloc_zeroed(l)
+    }
+}
+
+pub fn reset_max_req() {
+    MAX_REQ.store(0, Ordering::Relaxed);
+}
+pub fn max_req() -> usize {
+    MAX_REQ.load(Ordering::Relaxed)
+}
+
+// ---------------------------------------------------------------------------------
+// watchdog: a case that runs longer than the limit ends the process with exit code 3
+// after reporting its index on stderr (the driver resumes after it)
+pub static CASE_INDEX: AtomicU64 = AtomicU64::new(0);
+pub static CASE_START_MS: AtomicU64 = AtomicU64::new(0);
+
+fn now_ms() -> u64 {
+    std::time::SystemTime::now().duration_since(std::time::UNIX_EPOCH).unwrap().as_millis() as u64
+}
+
+pub fn case_begin(index: u64) {
+    CASE_INDEX.store(index, Ordering::SeqCst);
+    CASE_START_MS.store(now_ms(), Ordering::SeqCst);
+}
+
+pub fn start_watchdog(limit_ms: u64) {
+    CASE_START_MS.store(now_ms(), Ordering::SeqCst);
+    std::thread::spawn(move || loop {
+        std::thread::sleep(std::time::Duration::from_millis(50));
+        let st = CASE_START_MS.load(Ordering::SeqCst);
+        if st != 0 && now_ms().saturating_sub(st) > limit_ms {
+            eprintln!("HANG {}", CASE_INDEX.load(Ordering::SeqCst));
+            std::process::exit(3);
+        }
+    });
+}
